@@ -5,8 +5,11 @@ package p17
 import (
 	"crypto/sha256"
 	"fmt"
+	"runtime"
+	"sort"
 	"strconv"
 	"strings"
+	"sync"
 
 	"github.com/btcsuite/btcd/blockchain"
 	"github.com/btcsuite/btcd/chainhash/v2"
@@ -89,6 +92,20 @@ func parseSegs(s string) ([]int, bool) {
 type env struct {
 	t *blockchain.VerifTree
 	n int
+	// results kept as Go values and rendered again at the end of the line: a result must not
+	// change because later calls were made (A.2 "results are values")
+	kept []kept
+}
+
+type kept struct {
+	render func() string
+	first  string
+}
+
+func (e *env) keep(render func() string) string {
+	s := render()
+	e.kept = append(e.kept, kept{render, s})
+	return s
 }
 
 // hash of an id: real hash for ids inside the tree, a fabricated unknown hash otherwise
@@ -132,6 +149,14 @@ func (e *env) locIDs(loc blockchain.BlockLocator) string {
 		out[i] = pid(e.t.IDOf(h))
 	}
 	return strings.Join(out, ".")
+}
+
+func (e *env) hdrIDs(hdrs []wire.BlockHeader) string {
+	hs := make([]chainhash.Hash, len(hdrs))
+	for i := range hdrs {
+		hs[i] = hdrs[i].BlockHash()
+	}
+	return e.ids(hs)
 }
 
 func viewDigest(v []int) string {
@@ -191,7 +216,7 @@ func (e *env) op(tok string) string {
 			if e.locIDs(a) != e.locIDs(b) {
 				return "latest-differs"
 			}
-			return e.locIDs(a)
+			return e.keep(func() string { return e.locIDs(a) })
 		}
 		id := atoi(f[1])
 		a := t.Chain.BlockLocatorFromHash(e.hash(id))
@@ -200,17 +225,54 @@ func (e *env) op(tok string) string {
 				return "view-differs"
 			}
 		}
-		return e.locIDs(a)
+		return e.keep(func() string { return e.locIDs(a) })
 	case "inv":
 		hs := t.Chain.LocateBlocks(e.locator(f[1]), e.hash(atoi(f[2])), uint32(atoi(f[3])))
-		return e.ids(hs)
+		return e.keep(func() string { return e.ids(hs) })
 	case "hdr":
 		hdrs := t.LocateHeaders(e.locator(f[1]), e.hash(atoi(f[2])), uint32(atoi(f[3])))
-		hs := make([]chainhash.Hash, len(hdrs))
-		for i := range hdrs {
-			hs[i] = hdrs[i].BlockHash()
+		return e.keep(func() string { return e.hdrIDs(hdrs) })
+	case "lh": // the public LocateHeaders (wire.MaxBlockHeadersPerMsg cap)
+		hdrs := t.Chain.LocateHeaders(e.locator(f[1]), e.hash(atoi(f[2])))
+		return e.keep(func() string { return e.hdrIDs(hdrs) })
+	case "eq":
+		a, b := t.ViewEquals(oid(f[1]))
+		return b01(a) + b01(b)
+	case "itips":
+		tips := t.InactiveTips()
+		sort.Ints(tips)
+		return joinInts(tips)
+	case "tips":
+		tips := t.Chain.ChainTips()
+		sort.Slice(tips, func(i, j int) bool { return t.IDOf(&tips[i].BlockHash) < t.IDOf(&tips[j].BlockHash) })
+		ts := make([]string, len(tips))
+		for i, ct := range tips {
+			if ct.Height != t.HeightOf(t.IDOf(&ct.BlockHash)) {
+				return "tip-height-differs"
+			}
+			ts[i] = fmt.Sprintf("%s.%d.%d", pid(t.IDOf(&ct.BlockHash)), ct.Status, ct.BranchLen)
 		}
-		return e.ids(hs)
+		return strings.Join(ts, ",")
+	case "nd":
+		id := atoi(f[1])
+		p, h, ok := t.NodeAccessors(id)
+		if lk := t.IndexLookup(e.hash(id)); lk != id || !t.IndexHaveBlock(e.hash(id)) != (t.NodeStatusByte(id)&1 == 0) {
+			return "index-lookup-differs"
+		}
+		return fmt.Sprintf("%s/%d/%s", pid(p), h, b01(ok))
+	case "hdrof": // HeaderByHash: the header's parent, and it must hash back to the block hash
+		id := atoi(f[1])
+		h, err := t.Chain.HeaderByHash(e.hash(id))
+		if err != nil {
+			return "err"
+		}
+		if h.BlockHash() != *e.hash(id) {
+			return "header-hash-differs"
+		}
+		if h.PrevBlock == (chainhash.Hash{}) {
+			return "z"
+		}
+		return pid(t.IDOf(&h.PrevBlock))
 	case "linv":
 		id, total := t.LocateInventory(e.locator(f[1]), e.hash(atoi(f[2])), uint32(atoi(f[3])))
 		return fmt.Sprintf("%s/%d", pid(id), total)
@@ -219,19 +281,19 @@ func (e *env) op(tok string) string {
 		if err != nil {
 			return "err"
 		}
-		return e.ids(hs)
+		return e.keep(func() string { return e.ids(hs) })
 	case "h2h":
 		hs, err := t.Chain.HeightToHashRange(int32(atoi(f[1])), e.hash(atoi(f[2])), atoi(f[3]))
 		if err != nil {
 			return "err"
 		}
-		return e.ids(hs)
+		return e.keep(func() string { return e.ids(hs) })
 	case "ivl":
 		hs, err := t.Chain.IntervalBlockHashes(e.hash(atoi(f[1])), atoi(f[2]))
 		if err != nil {
 			return "err"
 		}
-		return e.ids(hs)
+		return e.keep(func() string { return e.ids(hs) })
 	case "mch":
 		return b01(t.Chain.MainChainHasBlock(e.hash(atoi(f[1]))))
 	case "hbh":
@@ -249,6 +311,9 @@ func (e *env) op(tok string) string {
 	case "st":
 		t.SetStatus(atoi(f[1]), byte(atoi(f[2])))
 		return "ok"
+	case "stf": // through SetStatusFlags / UnsetStatusFlags: status |= set, then &^= unset
+		t.SetUnsetStatus(atoi(f[1]), byte(atoi(f[2])), byte(atoi(f[3])))
+		return strconv.Itoa(int(t.NodeStatusByte(atoi(f[1]))))
 	}
 	panic("bad op " + tok)
 }
@@ -274,7 +339,39 @@ func (P) Exec(line string) string {
 		for _, tok := range f[3:] {
 			out = append(out, e.op(tok))
 		}
+		for i, k := range e.kept {
+			if again := k.render(); again != k.first {
+				out = append(out, fmt.Sprintf("value-changed:%d:%s->%s", i, k.first, again))
+			}
+		}
 		return strings.Join(out, "|")
+	case "par":
+		// independent instances run concurrently, started at different offsets; each answer must be
+		// the one the instance gives on its own (A.3 "no hidden shared state")
+		subs := strings.Split(strings.Join(f[2:], " "), " ;; ")
+		outs := make([]string, len(subs))
+		var wg sync.WaitGroup
+		for i, sub := range subs {
+			wg.Add(1)
+			go func(i int, sub string) {
+				defer wg.Done()
+				defer func() {
+					if r := recover(); r != nil {
+						outs[i] = "panic"
+					}
+				}()
+				for k := 0; k < i*3; k++ {
+					runtime.Gosched()
+				}
+				if strings.HasPrefix(sub, "par") {
+					outs[i] = "bad-op"
+					return
+				}
+				outs[i] = P{}.Exec("C17 " + sub)
+			}(i, sub)
+		}
+		wg.Wait()
+		return strings.Join(outs, " ;; ")
 	case "hf":
 		return execHeadersFirst(f[2:])
 	}
@@ -460,7 +557,36 @@ func queryOps(r *core.Rand, t *tree, tip int, k int) []string {
 		return t.randNode(r)
 	}
 	for ; k > 0; k-- {
-		switch r.Intn(16) {
+		switch r.Intn(23) {
+		case 16:
+			if r.Chance(1, 8) {
+				ops = append(ops, "eq:-")
+			} else {
+				ops = append(ops, fmt.Sprintf("eq:%d", anyNode()))
+			}
+		case 17:
+			if t.n() <= 300 {
+				ops = append(ops, "itips")
+			}
+		case 18:
+			if t.n() <= 300 {
+				ops = append(ops, "tips")
+			}
+		case 19:
+			ops = append(ops, fmt.Sprintf("nd:%d", anyNode()))
+		case 20:
+			id := anyNode()
+			if r.Chance(1, 6) {
+				id = t.n() + r.Intn(3)
+			}
+			ops = append(ops, fmt.Sprintf("hdrof:%d", id))
+		case 21, 22:
+			loc := randLocator(r, t, tip)
+			stop := t.n() + 1
+			if r.Bool() {
+				stop = onChain()
+			}
+			ops = append(ops, fmt.Sprintf("lh:%s:%d", joinInts(loc), stop))
 		case 0:
 			ops = append(ops, fmt.Sprintf("has:%d", anyNode()))
 		case 1:
@@ -703,8 +829,70 @@ func (P) Generate(g *core.Gen) {
 		a := t.randNode(r)
 		st := r.Pick(0, 1, 2, 3, 4, 8, 16, 17, 19, 5)
 		ops := []string{fmt.Sprintf("tip:%d", tip), fmt.Sprintf("st:%d:%d", a, st),
-			fmt.Sprintf("h2h:0:%d:100", a), fmt.Sprintf("ivl:%d:2", a), fmt.Sprintf("h2h:%d:%d:1", t.height[a], a)}
+			fmt.Sprintf("h2h:0:%d:100", a), fmt.Sprintf("ivl:%d:2", a), fmt.Sprintf("h2h:%d:%d:1", t.height[a], a), "tips",
+			fmt.Sprintf("stf:%d:%d:%d", t.randNode(r), r.Pick(0, 1, 2, 4, 8, 16, 12), r.Pick(0, 1, 2, 4, 8, 16, 3)), "tips",
+			fmt.Sprintf("stf:%d:%d:%d", a, r.Pick(0, 2, 4, 8), r.Pick(0, 2, 4, 8, 31)), "tips", "itips",
+			fmt.Sprintf("h2h:0:%d:100", a), fmt.Sprintf("ivl:%d:3", a)}
 		g.Case("status-paths", true, fmt.Sprintf("C17 t %s %s", t, strings.Join(ops, " ")))
 	}
+	// slice capacity boundary of setTip: a new backing array is made when needed > cap, and cap is
+	// needed + approxNodesPerWeek (1008) at the time of the last allocation
+	for i := 0; i < g.N(6, 60); i++ {
+		t := newTree()
+		t.addSeg(0, 2400)
+		fork := 200 + r.Intn(800)
+		t.addSeg(fork, 1300) // ids 2401.., heights fork+1..
+		h0 := r.Intn(150) + 1
+		side := func(h int) int { return 2400 + (h - fork) }
+		seq := []int{h0, h0 + 1007, h0 + 1008, side(h0 + 1008), h0 + 1009, side(h0 + 1009), h0, h0 + 1008 + 1009, side(h0 + 1010), h0 + 1010, 0, 1008, 1009, 2400}
+		var ops []string
+		for _, tip := range seq {
+			th := t.height[tip]
+			ops = append(ops, fmt.Sprintf("tip:%d", tip), "ht", fmt.Sprintf("at:%d", th), fmt.Sprintf("at:%d", th+1),
+				fmt.Sprintf("at:%d", fork), fmt.Sprintf("at:%d", fork+1), fmt.Sprintf("has:%d", fork+1), fmt.Sprintf("has:%d", 2401),
+				fmt.Sprintf("nxt:%d", fork), fmt.Sprintf("fork:%d", 2400), fmt.Sprintf("fork:%d", t.n()-1), "loc:-",
+				fmt.Sprintf("inv:%d:%d:5", fork, t.n()+1))
+		}
+		g.Case("view-cap-1008", true, fmt.Sprintf("C17 t %s %s", t, strings.Join(ops, " ")))
+	}
+	// LocateHeaders' wire limit (2000 headers) and LocateBlocks' usual 500
+	for _, th := range []int{1999, 2000, 2001, 2002} {
+		ops := []string{fmt.Sprintf("tip:%d", th), "lh:0:9999", "lh:1:9999", fmt.Sprintf("lh:0:%d", th), "lh:0:2000", "lh:0:1999", "lh:5.3:2001",
+			"inv:0:9999:500", "inv:0:500:500", "inv:0:499:500", "inv:0:501:500", "hdr:0:9999:2000", "hdr:0:9999:2001", "hdr:0:9999:1999"}
+		g.Case("locate-wire-limits", true, fmt.Sprintf("C17 t 0:2003 %s", strings.Join(ops, " ")))
+	}
+	// locator length formula 12 + floor(log2(h-10)): heights 10 + 2^k - 1 / + 0 / + 1, on and off the view
+	{
+		var on, off []string
+		for k := 1; k <= 11; k++ {
+			for _, d := range []int{-1, 0, 1} {
+				h := 10 + 1<<uint(k) + d
+				on = append(on, fmt.Sprintf("loc:%d", h))
+				off = append(off, fmt.Sprintf("loc:%d", 2100+h))
+			}
+		}
+		g.Case("loc-pow2", true, "C17 t 0:2100,0:2100 tip:2100 "+strings.Join(on, " ")+" "+strings.Join(off, " ")+" tip:4200 "+strings.Join(on, " "))
+	}
 	genHeadersFirst(g)
+	// independent instances side by side (A.3): 8 tree instances + 2 real chains per line
+	for i := 0; i < g.N(12, 150); i++ {
+		var subs []string
+		for k := 0; k < 8; k++ {
+			t := randTree(r, int(r.Pick(12, 40, 120)))
+			var ops []string
+			for j := r.Intn(3) + 1; j > 0; j-- {
+				tip := t.randNode(r)
+				ops = append(ops, fmt.Sprintf("tip:%d", tip), "view")
+				ops = append(ops, queryOps(r, t, tip, r.Intn(12)+4)...)
+			}
+			subs = append(subs, fmt.Sprintf("t %s %s", t, strings.Join(ops, " ")))
+		}
+		for k := 0; k < 2; k++ {
+			_, _, l := hfLine(r)
+			subs = append(subs, l)
+		}
+		// interleave kinds
+		subs[1], subs[8] = subs[8], subs[1]
+		g.Case("par-10-instances", true, "C17 par "+strings.Join(subs, " ;; "))
+	}
 }
